@@ -23,112 +23,403 @@ theorem matchesFilter_all_blank (flt : List Str) (r : Rule) (h : flt.all (fun x 
     | nil => simp [matchesFilter, blank_eq, h.1, ih [] h.2]
     | cons w ws => simp [matchesFilter, blank_eq, h.1, ih ws h.2]
 
-/-- `filter_words` on a line at least as long as the filter: skip ⇔ some non-blank filter value differs from its field -/
-theorem filterWords_eq (p0 : Str) (ps : List Str) (flt : List Str) (hlen : flt.length ≤ ps.length) :
-    filterWords (p0 :: ps) flt = !matchesFilter flt (ps.map strip) := by
-  unfold filterWords
-  have : ¬ ((p0 :: ps).length < flt.length + 1) := by simp; omega
-  simp only [this, ↓reduceIte, List.drop_succ_cons, List.drop_zero]
-  induction flt generalizing ps with
-  | nil => simp [matchesFilter]
+/-! ### `strip` is idempotent (the repaired filter strips fields the tokenizer already stripped) -/
+
+theorem lstrip_lstrip (s : Str) : lstrip (lstrip s) = lstrip s := by
+  induction s with
+  | nil => rfl
+  | cons c s ih =>
+    by_cases hc : isSpace c = true
+    · rw [lstrip_cons_space hc, ih]
+    · have hc' : isSpace c = false := by simpa using hc
+      rw [lstrip_cons_nonspace hc', lstrip_cons_nonspace hc']
+
+theorem rstrip_rstrip (s : Str) : rstrip (rstrip s) = rstrip s := by
+  induction s with
+  | nil => rfl
+  | cons c s ih =>
+    by_cases hr : rstrip s = []
+    · by_cases hc : isSpace c = true
+      · simp [rstrip, hr, hc]
+      · have hc' : isSpace c = false := by simpa using hc
+        have h1 : rstrip (c :: s) = [c] := by rw [rstrip]; simp [hr, hc']
+        rw [h1, rstrip_cons_nonspace hc']; rfl
+    · rw [rstrip_cons_of_ne_nil hr, rstrip_cons_of_ne_nil (by rw [ih]; exact hr), ih]
+
+theorem lstrip_rstrip_of_lstrip_eq (t : Str) (h : lstrip t = t) : lstrip (rstrip t) = rstrip t := by
+  cases t with
+  | nil => rfl
+  | cons c s =>
+    have hc : isSpace c = false := by
+      cases hcs : isSpace c with
+      | false => rfl
+      | true =>
+        rw [lstrip_cons_space hcs] at h
+        have := lstrip_length_le s
+        rw [h] at this; simp at this; omega
+    rw [rstrip_cons_nonspace hc, lstrip_cons_nonspace hc]
+
+theorem strip_strip (s : Str) : strip (strip s) = strip s := by
+  unfold strip
+  rw [lstrip_rstrip_of_lstrip_eq _ (lstrip_lstrip s), rstrip_rstrip]
+
+/-! ### the repaired filter = the property's predicate, on every line -/
+
+/-- `filter_words` (repaired: no length guard): skip ⇔ some non-blank filter value has no equal field at its position -/
+theorem filterWordsAux_eq (flt : List Str) (ws : List Str) :
+    filterWordsAux flt ws = !matchesFilter flt (ws.map strip) := by
+  induction flt generalizing ws with
+  | nil => simp [filterWordsAux, matchesFilter]
   | cons v vs ih =>
-    cases ps with
-    | nil => simp at hlen
+    cases ws with
+    | nil =>
+      have := ih []
+      simp only [List.map_nil] at this
+      simp only [filterWordsAux, List.map_nil, matchesFilter, this]
+      cases blank v <;> simp
     | cons w ws =>
-      simp only [List.length_cons, Nat.add_le_add_iff_right] at hlen
-      simp only [List.zip_cons_cons, List.any_cons, List.map_cons, matchesFilter]
-      rw [ih ws hlen (by simp; omega)]
+      simp only [filterWordsAux, List.map_cons, matchesFilter, ih ws]
       cases blank v <;> cases h : (strip v == strip w) <;> simp [h, bne]
 
-/-- **the filter predicate of the code = the filter predicate of the property**, on a line whose naive comma split
-    is what the loader stores and whose rule is not shorter than the filter -/
-theorem filterLine_eq (l : Str) (f : Filter) (k : Str) (r : Rule)
-    (hsplit : (splitOn ',' l).map strip = k :: r)
-    (hlen : if k == ['p'] then f.P.length ≤ r.length else if k == ['g'] then f.G.length ≤ r.length else True) :
-    filterLine l f = !keeps f k r := by
-  unfold filterLine
-  cases hs : splitOn ',' l with
-  | nil => rw [hs] at hsplit; simp at hsplit
-  | cons p0 ps =>
-    rw [hs] at hsplit
-    simp only [List.map_cons, List.cons.injEq] at hsplit
-    obtain ⟨hk, hr⟩ := hsplit
-    simp only [hk]
-    unfold keeps
-    by_cases hg : (k == ['g']) = true
-    · have hp : (k == ['p']) = false := by
-        simp only [beq_iff_eq] at hg; subst hg; decide
-      simp only [hg, hp, Bool.false_eq_true, ↓reduceIte] at hlen ⊢
-      by_cases he : (f.G.isEmpty || f.G.all fun x => (strip x).isEmpty) = true
-      · simp only [he, ↓reduceIte]
-        have : f.G.all (fun x => (strip x).isEmpty) = true := by
-          rcases Bool.or_eq_true _ _ |>.mp he with h | h
-          · have : f.G = [] := by simpa using h
-            simp [this]
-          · exact h
-        simp [matchesFilter_all_blank _ _ this]
-      · simp only [he, Bool.false_eq_true, ↓reduceIte]
-        rw [filterWords_eq p0 ps f.G (by rw [← hr] at hlen; simpa using hlen), hr]
-    · simp only [hg, Bool.false_eq_true, ↓reduceIte] at hlen ⊢
-      by_cases hp : (k == ['p']) = true
-      · simp only [hp, ↓reduceIte] at hlen ⊢
-        rw [filterWords_eq p0 ps f.P (by rw [← hr] at hlen; simpa using hlen), hr]
-      · simp only [hp, Bool.false_eq_true, ↓reduceIte]
-        simp [filterWords]
+/-- the loader is the tokenizer `split_line` followed by the two `IndexError` checks -/
+theorem parseLine_eq_splitLine (l : Str) (h : (l.isEmpty || l.take 1 == ['#']) = false) :
+    parseLine l =
+      match splitLine l with
+      | .error e => .error e
+      | .ok [] => .error .indexError
+      | .ok ([] :: _) => .error .indexError
+      | .ok (key :: rule) => .ok (some (key, rule)) := by
+  simp only [Bool.or_eq_false_iff] at h
+  unfold parseLine splitLine
+  simp only [h.1, h.2, Bool.false_eq_true, ↓reduceIte]
+  cases tokLoop l 0 [] with
+  | error e => rfl
+  | ok toks =>
+    simp only
+    cases toks.map strip with
+    | nil => rfl
+    | cons k r => cases k <;> rfl
 
-/-- F20 (open): a bracketed comma before a filtered position — the rule's second field is `c`, the filter asks for
-    `c`, the code skips the line -/
+/-- a non-empty line never tokenizes to nothing -/
+theorem splitLine_ne_nil (c : Char) (s : Str) : splitLine (c :: s) ≠ .ok [] := by
+  unfold splitLine
+  rw [tokLoop_eq_scan]
+  by_cases hb : (isOpen c || isClose c) = true
+  · simp [hb]
+  · simp only [hb, Bool.false_eq_true, ↓reduceIte]
+    cases scan 0 s with
+    | error e => simp [toToks]
+    | ok r => obtain ⟨t, ts⟩ := r; simp [toToks]
+
+theorem splitLine_stripped (l : Str) (p : List Str) (h : splitLine l = .ok p) : p.map strip = p := by
+  unfold splitLine at h
+  cases ht : tokLoop l 0 [] with
+  | error e => rw [ht] at h; simp at h
+  | ok toks =>
+    rw [ht] at h
+    simp only [Except.ok.injEq] at h
+    subst h
+    rw [List.map_map]
+    apply List.map_congr_left
+    intro t _
+    exact strip_strip t
+
+/-- **`filterLine_eq`: the repaired `filter_line` is the property's predicate** — on every line the loader turns into
+    a rule it answers "skip" exactly when some non-blank value of the type's filter is not equal to the rule's field at
+    that position (`p` by `P`, `g` by `G`, other types never) -/
+theorem filterLine_eq (l : Str) (f : Filter) (k : Str) (r : Rule) (h : parseLine l = .ok (some (k, r))) :
+    filterLine l f = .ok (!keeps f k r) := by
+  have hne : (l.isEmpty || l.take 1 == ['#']) = false := by
+    cases hb : (l.isEmpty || l.take 1 == ['#']) with
+    | false => rfl
+    | true =>
+      exfalso
+      unfold parseLine at h
+      rcases Bool.or_eq_true _ _ |>.mp hb with h1 | h1
+      · simp [h1] at h
+      · by_cases h0 : l.isEmpty = true
+        · simp [h0] at h
+        · simp [h0, h1] at h
+  rw [parseLine_eq_splitLine l hne] at h
+  unfold filterLine
+  simp only [hne, Bool.false_eq_true, ↓reduceIte]
+  cases hs : splitLine l with
+  | error e => rw [hs] at h; simp at h
+  | ok p =>
+    rw [hs] at h
+    have hstr := splitLine_stripped l p hs
+    cases p with
+    | nil => simp at h
+    | cons p0 ps =>
+      cases p0 with
+      | nil => simp at h
+      | cons c p0' =>
+        simp only [Except.ok.injEq, Option.some.injEq, Prod.mk.injEq] at h
+        obtain ⟨hk, hr⟩ := h
+        subst hk; subst hr
+        simp only [List.map_cons, List.cons.injEq] at hstr
+        obtain ⟨hs0, hsr⟩ := hstr
+        simp only [hs0]
+        have hfw : ∀ flt, filterWords ((c :: p0') :: ps) flt = !matchesFilter flt ps := by
+          intro flt
+          unfold filterWords
+          simp only [List.drop_succ_cons, List.drop_zero]
+          rw [filterWordsAux_eq, hsr]
+        generalize hkk : (c :: p0') = k at *
+        unfold keeps
+        by_cases hg : (k == ['g']) = true
+        · have hp : (k == ['p']) = false := by
+            simp only [beq_iff_eq] at hg; subst hg; decide
+          simp only [hg, hp, Bool.false_eq_true, ↓reduceIte]
+          by_cases he : (f.G.isEmpty || f.G.all fun x => (strip x).isEmpty) = true
+          · simp only [he, ↓reduceIte]
+            have : f.G.all (fun x => (strip x).isEmpty) = true := by
+              rcases Bool.or_eq_true _ _ |>.mp he with h | h
+              · have : f.G = [] := by simpa using h
+                simp [this]
+              · exact h
+            simp [matchesFilter_all_blank _ _ this]
+          · simp only [he, Bool.false_eq_true, ↓reduceIte, hfw]
+        · simp only [hg, Bool.false_eq_true, ↓reduceIte]
+          by_cases hp : (k == ['p']) = true
+          · simp only [hp, ↓reduceIte, hfw]
+          · simp only [hp, Bool.false_eq_true, ↓reduceIte, hfw]
+            simp [matchesFilter]
+
+/-! ### what the repair changed: the unrepaired `filter_line` / `filter_words` (finding F20, fixed) -/
+
+/-- `filter_words` before the repair: a line shorter than the filter is skipped whatever the extra positions hold -/
+def filterWordsOld (line : List Str) (flt : List Str) : Bool :=
+  if line.length < flt.length + 1 then true
+  else (flt.zip (line.drop 1)).any fun (v, w) => !blank v && strip v != strip w
+
+/-- `filter_line` before the repair: the line is cut at every comma -/
+def filterLineOld (line : Str) (f : Filter) : Bool :=
+  let p := splitOn ',' line
+  match p with
+  | [] => true
+  | p0 :: _ =>
+    if strip p0 == ['g'] then
+      if f.G.isEmpty || f.G.all (fun x => (strip x).isEmpty) then false
+      else filterWordsOld p f.G
+    else if strip p0 == ['p'] then filterWordsOld p f.P
+    else filterWordsOld p []
+
+/-- Boolean form of `filterLine l f = .ok b` -/
+def filtersTo (l : Str) (f : Filter) (b : Bool) : Bool :=
+  match filterLine l f with
+  | .ok x => x == b
+  | .error _ => false
+
+/-- F20, first witness: a bracketed comma before a filtered position — the rule's second field is `c`, the filter asks
+    for `c`; the unrepaired function skipped the line, the repaired one keeps it -/
 theorem filterLine_naive_split_witness :
     parsesTo "p, f(a, b), c".toList (['p'], ["f(a, b)".toList, ['c']]) = true ∧
     keeps { P := [[], ['c']], G := [] } ['p'] ["f(a, b)".toList, ['c']] = true ∧
-    filterLine "p, f(a, b), c".toList { P := [[], ['c']], G := [] } = true := by
+    filterLineOld "p, f(a, b), c".toList { P := [[], ['c']], G := [] } = true ∧
+    filtersTo "p, f(a, b), c".toList { P := [[], ['c']], G := [] } false = true := by
   decide
 
-/-- F20 (open): a filter longer than the rule whose extra position is blank — every non-blank value matches, the
-    code skips the line -/
+/-- F20, second witness: a filter longer than the rule whose extra position is blank — every non-blank value matches;
+    the unrepaired function skipped the line, the repaired one keeps it -/
 theorem filterLine_long_filter_witness :
     parsesTo "p, a, b".toList (['p'], [['a'], ['b']]) = true ∧
     keeps { P := [['a'], [], []], G := [['x']] } ['p'] [['a'], ['b']] = true ∧
-    filterLine "p, a, b".toList { P := [['a'], [], []], G := [['x']] } = true := by
+    filterLineOld "p, a, b".toList { P := [['a'], [], []], G := [['x']] } = true ∧
+    filtersTo "p, a, b".toList { P := [['a'], [], []], G := [['x']] } false = true := by
+  decide
+
+/-- F20, third witness: a leading comma (dropped by the loader) — the unrepaired function did not recognise the `p`
+    rule and loaded it whatever the filter said; the repaired one skips it -/
+theorem filterLine_leading_comma_witness :
+    parsesTo ", p, a".toList (['p'], [['a']]) = true ∧
+    keeps { P := [['b']], G := [] } ['p'] [['a']] = false ∧
+    filterLineOld ", p, a".toList { P := [['b']], G := [] } = false ∧
+    filtersTo ", p, a".toList { P := [['b']], G := [] } true = true := by
   decide
 
 /-! ## filtered loading of a whole file -/
 
 theorem parsedPairs_eq (ls : List Str) : parsedPairs ls = ls.filterMap parsed := rfl
 
-/-- one step of `load_filtered_policy_file` on a line inside the domain -/
-theorem filtered_step (f : Filter) (l : Str) (hdom : naiveOK f l = true) (m : Store) :
-    (if l.isEmpty then Except.ok m else if filterLine l f then .ok m else loadPolicyLine l m) =
-      .ok (applyOpt m ((parsed l).filter fun p => keeps f p.1 p.2)) := by
-  unfold naiveOK at hdom
-  unfold parsed
+/-- one line under a keep-predicate: the common shape of the full loader (`keep = true`) and the filtered loader -/
+def lineStep (keep : Str → Rule → Bool) (l : Str) (m : Store) : Except Err Store :=
+  match parseLine l with
+  | .error e => .error e
+  | .ok none => .ok m
+  | .ok (some (k, r)) => if keep k r then .ok (m.append k r) else .ok m
+
+/-- the lines before the first one on which `load_policy_line` raises -/
+def goodPrefix : List Str → List Str
+  | [] => []
+  | l :: ls => match parseLine l with
+    | .error _ => []
+    | .ok _ => l :: goodPrefix ls
+
+/-- the exception of the first raising line -/
+def firstError : List Str → Option Err
+  | [] => none
+  | l :: ls => match parseLine l with
+    | .error e => some e
+    | .ok _ => firstError ls
+
+theorem goodPrefix_of_no_error (ls : List Str) (h : firstError ls = none) : goodPrefix ls = ls := by
+  induction ls with
+  | nil => rfl
+  | cons l ls ih =>
+    unfold firstError at h
+    unfold goodPrefix
+    cases hp : parseLine l with
+    | error e => simp [hp] at h
+    | ok o => simp only [hp] at h ⊢; rw [ih h]
+
+theorem firstError_none_iff (ls : List Str) : firstError ls = none ↔ ∀ l ∈ ls, ∀ e, parseLine l ≠ .error e := by
+  induction ls with
+  | nil => simp [firstError]
+  | cons l ls ih =>
+    unfold firstError
+    cases hp : parseLine l with
+    | error e =>
+      simp only [reduceCtorEq, false_iff]
+      intro h; exact h l (by simp) e hp
+    | ok o =>
+      simp only [ih]
+      constructor
+      · intro h x hx e
+        rcases List.mem_cons.mp hx with rfl | hx
+        · rw [hp]; simp
+        · exact h x hx e
+      · intro h x hx e; exact h x (by simp [hx]) e
+
+theorem extend_nil (m : Store) : extend m [] = m := by
+  unfold extend
+  conv => rhs; rw [← List.map_id m]
+  apply List.map_congr_left
+  intro e _; simp [rulesOf]
+
+theorem extend_append (m : Store) (k : Str) (r : Rule) (kr : List (Str × Rule)) :
+    extend (m.append k r) kr = extend m ((k, r) :: kr) := by
+  rw [← appendAll_eq_extend, ← appendAll_eq_extend]; rfl
+
+/-- **loading lines under a keep-predicate, for every list of lines**: every policy type is extended by the kept
+    rules of the lines before the first raising one, in order; the exception is that line's -/
+theorem loadLines_lineStep (keep : Str → Rule → Bool) (ls : List Str) (m : Store) :
+    loadLines (lineStep keep) ls m =
+      (extend m ((parsedPairs (goodPrefix ls)).filter fun p => keep p.1 p.2), firstError ls) := by
+  induction ls generalizing m with
+  | nil => simp [loadLines, goodPrefix, firstError, parsedPairs, extend_nil]
+  | cons l ls ih =>
+    conv => lhs; unfold loadLines
+    unfold goodPrefix firstError
+    cases hp : parseLine l with
+    | error e =>
+      have hstep : lineStep keep l m = .error e := by unfold lineStep; rw [hp]
+      simp [hstep, parsedPairs, extend_nil]
+    | ok o =>
+      cases o with
+      | none =>
+        have hstep : lineStep keep l m = .ok m := by unfold lineStep; rw [hp]
+        simp only [hstep]
+        rw [ih]
+        simp [parsedPairs, parsed, hp]
+      | some kr =>
+        obtain ⟨k, r⟩ := kr
+        have hpp : parsedPairs (l :: goodPrefix ls) = (k, r) :: parsedPairs (goodPrefix ls) := by
+          simp [parsedPairs, parsed, hp]
+        by_cases hk : keep k r = true
+        · have hstep : lineStep keep l m = .ok (m.append k r) := by unfold lineStep; rw [hp]; simp [hk]
+          simp only [hstep]
+          rw [ih, extend_append, hpp]
+          simp [hk]
+        · have hstep : lineStep keep l m = .ok m := by unfold lineStep; rw [hp]; simp [hk]
+          simp only [hstep]
+          rw [ih, hpp]
+          simp [hk]
+
+theorem loadLines_map (h : Str → Store → Except Err Store) (pre : Str → Str) (ls : List Str) (m : Store) :
+    loadLines (fun l st => h (pre l) st) ls m = loadLines h (ls.map pre) m := by
+  induction ls generalizing m with
+  | nil => rfl
+  | cons l ls ih =>
+    simp only [List.map_cons]
+    unfold loadLines
+    cases h (pre l) m with
+    | error e => rfl
+    | ok m' => exact ih m'
+
+theorem loadPolicyLine_eq_lineStep (l : Str) (m : Store) : loadPolicyLine l m = lineStep (fun _ _ => true) l m := by
+  unfold lineStep
   cases hp : parseLine l with
-  | error e => simp [hp] at hdom
+  | error e => exact loadPolicyLine_error l m e hp
   | ok o =>
     cases o with
-    | none =>
-      simp only [Option.filter_none, applyOpt]
-      rw [loadPolicyLine_none l m hp]
-      split <;> try rfl
-      split <;> rfl
-    | some kr =>
-      obtain ⟨k, r⟩ := kr
-      simp only [hp, Bool.and_eq_true, beq_iff_eq] at hdom
-      obtain ⟨hsplit, hlen⟩ := hdom
-      have hlen' : if k == ['p'] then f.P.length ≤ r.length else if k == ['g'] then f.G.length ≤ r.length else True := by
-        by_cases h1 : k = ['p']
-        · subst h1; simpa using hlen
-        · by_cases h2 : k = ['g']
-          · subst h2; simpa using hlen
-          · simp [h1, h2]
-      have hfl := filterLine_eq l f k r hsplit hlen'
-      have hne : l.isEmpty = false := by
-        cases l with
-        | nil => simp [parseLine] at hp
-        | cons c l => rfl
-      simp only [hne, Bool.false_eq_true, ↓reduceIte, hfl]
-      rw [loadPolicyLine_some l m k r hp]
-      cases hk : keeps f k r <;> simp [Option.filter, hk, applyOpt]
+    | none => exact loadPolicyLine_none l m hp
+    | some kr => obtain ⟨k, r⟩ := kr; simpa using loadPolicyLine_some l m k r hp
+
+/-- one step of the repaired `load_filtered_policy_file`, for EVERY line: skipped lines, comments, rules the filter
+    keeps or drops, and lines on which the loader raises (the filter raises the same exception there, or lets the
+    loader raise it) -/
+theorem filtered_step (f : Filter) (l : Str) (m : Store) :
+    (if l.isEmpty then Except.ok m
+      else match filterLine l f with
+        | .error e => .error e
+        | .ok true => .ok m
+        | .ok false => loadPolicyLine l m) = lineStep (keeps f) l m := by
+  by_cases hb : (l.isEmpty || l.take 1 == ['#']) = true
+  · -- empty line or comment: both sides leave the model alone
+    have hp : parseLine l = .ok none := by
+      unfold parseLine
+      rcases Bool.or_eq_true _ _ |>.mp hb with h1 | h1
+      · simp [h1]
+      · by_cases h0 : l.isEmpty = true
+        · simp [h0]
+        · simp [h0, h1]
+    have hfl : filterLine l f = .ok false := by unfold filterLine; simp [hb]
+    simp only [lineStep, hp, hfl, loadPolicyLine_none l m hp]
+    split <;> rfl
+  · have hb' : (l.isEmpty || l.take 1 == ['#']) = false := by simpa using hb
+    have hne : l.isEmpty = false := by
+      simp only [Bool.or_eq_false_iff] at hb'; exact hb'.1
+    simp only [hne, Bool.false_eq_true, ↓reduceIte]
+    cases hp : parseLine l with
+    | ok o =>
+      cases o with
+      | none =>
+        exfalso
+        rw [parseLine_eq_splitLine l hb'] at hp
+        split at hp <;> simp at hp
+      | some kr =>
+        obtain ⟨k, r⟩ := kr
+        rw [filterLine_eq l f k r hp]
+        simp only [lineStep, hp, loadPolicyLine_some l m k r hp]
+        cases keeps f k r <;> rfl
+    | error e =>
+      simp only [lineStep, hp]
+      have hp' := hp
+      rw [parseLine_eq_splitLine l hb'] at hp'
+      unfold filterLine
+      simp only [hb', Bool.false_eq_true, ↓reduceIte]
+      cases hs : splitLine l with
+      | error e' =>
+        rw [hs] at hp'
+        simp only [Except.error.injEq] at hp'
+        simp [hp']
+      | ok p =>
+        rw [hs] at hp'
+        cases p with
+        | nil =>
+          cases l with
+          | nil => simp at hne
+          | cons c s => exact absurd hs (splitLine_ne_nil c s)
+        | cons p0 ps =>
+          cases p0 with
+          | cons c p0' => simp at hp'
+          | nil =>
+            -- blank type name: not `p`, not `g`, so the line is kept and the loader raises
+            have h1 : (strip ([] : Str) == ['g']) = false := by decide
+            have h2 : (strip ([] : Str) == ['p']) = false := by decide
+            simp only [h1, h2, Bool.false_eq_true, ↓reduceIte, filterWords, filterWordsAux]
+            exact loadPolicyLine_error l m e hp
 
 theorem rulesOf_filter (f : Filter) (kr : List (Str × Rule)) (key : Str) :
     rulesOf (kr.filter fun p => keeps f p.1 p.2) key = (rulesOf kr key).filter (keeps f key) := by
@@ -146,51 +437,51 @@ theorem rulesOf_filter (f : Filter) (kr : List (Str × Rule)) (key : Str) :
       · simp only [List.filter_cons, hkeep, ↓reduceIte, rulesOf_cons, hk, Bool.false_eq_true, ih]
       · simp only [List.filter_cons, hkeep, Bool.false_eq_true, ↓reduceIte, rulesOf_cons, hk, ih]
 
-/-- **`filtered_exact`** (partial: on the domain `naiveOK`, see F20).  `load_filtered_policy_file` appends to every
-    policy type exactly those rules of the file, in file order, that the filter keeps: `p` rules whose leading fields
-    equal every non-blank value of `P`, `g` rules likewise with `G`, all rules of other types. -/
-theorem filtered_exact_partial (text : Str) (f : Filter) (m : Store)
-    (hdom : ∀ l ∈ textLines true text, naiveOK f l = true) :
+/-- **`filtered_exact`** — for EVERY file, filter and memory (after repair F20 no hypothesis is left).
+    `load_filtered_policy_file` appends to every policy type exactly those rules of the file, in file order, that the
+    filter keeps: `p` rules whose leading fields equal every non-blank value of `P`, `g` rules likewise with `G`, all
+    rules of other types.  When a line makes the loader raise, this holds for the lines before it and the exception
+    is that line's — exactly as for the full load. -/
+theorem filtered_exact (text : Str) (f : Filter) (m : Store) :
     loadFilteredFile text f m =
-      (extend m ((parsedPairs (textLines true text)).filter fun p => keeps f p.1 p.2), none) := by
-  unfold loadFilteredFile
-  rw [loadLines_described _ (fun l => (parsed (strip l)).filter fun p => keeps f p.1 p.2) _ ?_ m,
-    appendAll_eq_extend]
-  · congr 2
-    rw [parsedPairs_eq, List.filter_filterMap]
-    simp [textLines, List.filterMap_map, Function.comp_def]
-  · intro l hl m
-    exact filtered_step f (strip l) (hdom _ (by simp only [textLines, ↓reduceIte]; exact List.mem_map_of_mem hl)) m
+      (extend m ((parsedPairs (goodPrefix (textLines true text))).filter fun p => keeps f p.1 p.2),
+       firstError (textLines true text)) := by
+  have hlines : textLines true text = (splitOn '\n' text).map strip := by simp [textLines]
+  have hfun : loadFilteredFile text f m =
+      loadLines (fun l st => lineStep (keeps f) (strip l) st) (splitOn '\n' text) m := by
+    unfold loadFilteredFile
+    congr 1
+    funext l st
+    exact filtered_step f (strip l) st
+  rw [hfun, loadLines_map (lineStep (keeps f)) strip, ← hlines, loadLines_lineStep]
 
-/-- **full load** (`_load_policy_file`): when no line raises, every policy type is extended by the rules the file
-    holds for it, in file order -/
+/-- **full load** (`_load_policy_file`), for every file: every policy type is extended by the rules of the lines before
+    the first raising one -/
+theorem load_full_general (text : Str) (m : Store) :
+    loadFile text m =
+      (extend m (parsedPairs (goodPrefix (textLines true text))), firstError (textLines true text)) := by
+  have hlines : textLines true text = (splitOn '\n' text).map strip := by simp [textLines]
+  unfold loadFile
+  have hfun : (fun (l : Str) (st : Store) => loadPolicyLine (strip l) st) =
+      fun l st => lineStep (fun _ _ => true) (strip l) st := by
+    funext l st; exact loadPolicyLine_eq_lineStep (strip l) st
+  rw [hfun, loadLines_map (lineStep fun _ _ => true) strip, ← hlines, loadLines_lineStep]
+  have : ∀ l : List (Str × Rule), l.filter (fun _ => true) = l := by
+    intro l; induction l <;> simp_all
+  rw [this]
+
+/-- full load when no line raises -/
 theorem load_full (text : Str) (m : Store)
     (hok : ∀ l ∈ textLines true text, ∀ e, parseLine l ≠ .error e) :
     loadFile text m = (extend m (parsedPairs (textLines true text)), none) := by
-  unfold loadFile
-  rw [loadLines_described _ (fun l => parsed (strip l)) _ ?_ m, appendAll_eq_extend]
-  · congr 2
-    simp [parsedPairs_eq, textLines, List.filterMap_map, Function.comp_def]
-  · intro l hl m
-    have hne := hok (strip l) (by simp only [textLines, ↓reduceIte]; exact List.mem_map_of_mem hl)
-    unfold parsed
-    cases hp : parseLine (strip l) with
-    | error e => exact absurd hp (hne e)
-    | ok o =>
-      cases o with
-      | none => simp [applyOpt, loadPolicyLine_none _ m hp]
-      | some kr => obtain ⟨k, r⟩ := kr; simp [applyOpt, loadPolicyLine_some _ m k r hp]
+  have h := (firstError_none_iff _).mpr hok
+  rw [load_full_general, goodPrefix_of_no_error _ h, h]
 
-theorem naiveOK_no_error (f : Filter) (l : Str) (h : naiveOK f l = true) : ∀ e, parseLine l ≠ .error e := by
-  intro e he; simp [naiveOK, he] at h
-
-/-- the statement in "subset of the full load" form: loading filtered into an empty policy gives the full load with
-    every policy type filtered by `keeps` -/
-theorem filtered_eq_filter_of_full (text : Str) (f : Filter) (m : Store)
-    (hempty : ∀ e ∈ m, e.rules = [])
-    (hdom : ∀ l ∈ textLines true text, naiveOK f l = true) :
-    loadFilteredFile text f m = (filterStore f (loadFile text m).1, none) := by
-  rw [filtered_exact_partial text f m hdom, load_full text m (fun l hl => naiveOK_no_error f l (hdom l hl))]
+/-- **the filtered load is the full load, filtered** — unconditionally: loading filtered into an empty policy gives the
+    full load with every policy type filtered by `keeps`, and fails exactly when, and as, the full load fails -/
+theorem filtered_eq_filter_of_full (text : Str) (f : Filter) (m : Store) (hempty : ∀ e ∈ m, e.rules = []) :
+    loadFilteredFile text f m = (filterStore f (loadFile text m).1, (loadFile text m).2) := by
+  rw [filtered_exact, load_full_general]
   congr 1
   unfold filterStore extend
   rw [List.map_map]
@@ -420,37 +711,40 @@ def selected (f : Option Filter) (kr : List (Str × Rule)) : List (Str × Rule) 
   | none => kr
   | some f => if isEmptyFilter f then kr else kr.filter fun p => keeps f p.1 p.2
 
-def inDomain (text : Str) : Option Filter → Prop
-  | none => ∀ l ∈ textLines true text, ∀ e, parseLine l ≠ .error e
-  | some f => if isEmptyFilter f then ∀ l ∈ textLines true text, ∀ e, parseLine l ≠ .error e
-              else ∀ l ∈ textLines true text, naiveOK f l = true
-
-theorem adapterLoadFiltered_exact (s : EState) (m : Store) (f : Option Filter) (hdom : inDomain s.file f) :
-    (adapterLoadFiltered s m f).2 = (extend m (selected f (parsedPairs (textLines true s.file))), none) := by
+/-- what the adapter leaves in the model object, for every file and every filter -/
+theorem adapterLoadFiltered_exact (s : EState) (m : Store) (f : Option Filter) :
+    (adapterLoadFiltered s m f).2.1 =
+      extend m (selected f (parsedPairs (goodPrefix (textLines true s.file)))) := by
   cases f with
-  | none =>
-    simp only [inDomain] at hdom
-    simp [adapterLoadFiltered, adapterLoad, load_full s.file m hdom, selected]
+  | none => simp [adapterLoadFiltered, adapterLoad, load_full_general, selected]
   | some f =>
     unfold adapterLoadFiltered
     by_cases he : isEmptyFilter f = true
-    · simp only [inDomain, he, ↓reduceIte] at hdom
-      simp [he, adapterLoad, load_full s.file m hdom, selected]
-    · simp only [inDomain, he, Bool.false_eq_true, ↓reduceIte] at hdom
-      simp only [he, Bool.false_eq_true, ↓reduceIte, filtered_exact_partial s.file f m hdom, selected]
+    · simp [he, adapterLoad, load_full_general, selected]
+    · simp only [he, Bool.false_eq_true, ↓reduceIte, filtered_exact s.file f m, selected]
+      cases firstError (textLines true s.file) <;> rfl
 
-/-- **`incremental_appends`** (and `filtered_exact` at enforcer level): `load_increment_filtered_policy` leaves every
-    policy type with what it held plus the selected rules of the file, in file order (nothing is dropped, nothing is
-    deduplicated); `load_filtered_policy` does the same starting from the cleared policy -/
-theorem incremental_appends (clear : Bool) (s : EState) (f : Option Filter) (hdom : inDomain s.file f) :
+/-- **`incremental_appends`** (and `filtered_exact` at enforcer level), for every file and every filter:
+    `load_increment_filtered_policy` leaves every policy type with what it held plus the selected rules of the file, in
+    file order (nothing is dropped, nothing is deduplicated); `load_filtered_policy` does the same starting from the
+    cleared policy.  (`goodPrefix` = the whole file unless a line makes the loader raise.) -/
+theorem incremental_appends (clear : Bool) (s : EState) (f : Option Filter) :
     (loadFilteredGen clear s f).1.mem =
-      extend (if clear then clearPG s.mem else s.mem) (selected f (parsedPairs (textLines true s.file))) := by
+      extend (if clear then clearPG s.mem else s.mem)
+        (selected f (parsedPairs (goodPrefix (textLines true s.file)))) := by
   unfold loadFilteredGen
-  have := adapterLoadFiltered_exact s (if clear then clearPG s.mem else s.mem) f hdom
+  have := adapterLoadFiltered_exact s (if clear then clearPG s.mem else s.mem) f
   simp only
   split
-  · rename_i heq; rw [heq] at this; simp at this
-  · rename_i heq; rw [heq] at this; simp only [Prod.mk.injEq, and_true] at this; simp [this]
+  · rename_i heq; rw [heq] at this; simpa using this
+  · rename_i heq; rw [heq] at this; simpa using this
+
+/-- the same when no line of the file raises: the whole file is read -/
+theorem incremental_appends_ok (clear : Bool) (s : EState) (f : Option Filter)
+    (hok : ∀ l ∈ textLines true s.file, ∀ e, parseLine l ≠ .error e) :
+    (loadFilteredGen clear s f).1.mem =
+      extend (if clear then clearPG s.mem else s.mem) (selected f (parsedPairs (textLines true s.file))) := by
+  rw [incremental_appends, goodPrefix_of_no_error _ ((firstError_none_iff _).mpr hok)]
 
 /-- the links a policy defines: for every `g` type, every rule cut to the role definition's arity -/
 def edges (m : Store) : List Link :=
@@ -499,55 +793,6 @@ theorem links_from_subset (clear : Bool) (s : EState) (f : Option Filter)
   · simp at hok
   · rename_i s1 m1 heq
     exact buildLinks_ok m1 hok
-
-/-! ## the domain of `filtered_exact_partial` contains every bracket-free file -/
-
-theorem splitTop_bracket_free (l : Str) (hb : ∀ c ∈ l, isOpen c = false ∧ isClose c = false) :
-    splitTop (annotate 0 l) = splitOn ',' l := by
-  induction l with
-  | nil => rfl
-  | cons c s ih =>
-    have hc := hb c (by simp)
-    have ih' := ih (fun x hx => hb x (by simp [hx]))
-    unfold annotate splitTop splitOn
-    simp only [hc.1, hc.2, Bool.false_eq_true, ↓reduceIte, beq_self_eq_true, Bool.and_true]
-    rw [ih']
-    by_cases hk : c = ','
-    · simp [hk]
-    · have : (c == ',') = false := by simpa using hk
-      simp only [this, Bool.false_eq_true, ↓reduceIte, hk]
-      cases splitOn ',' s <;> rfl
-
-/-- on a line without brackets that is inside the line grammar, the adapter's naive split sees exactly the loader's
-    fields; so with a filter no longer than the rule the line is inside the domain of `filtered_exact_partial`.  Every
-    policy file without brackets (all example files of the repository except the two ABAC ones) is covered. -/
-theorem naiveOK_of_bracket_free (f : Filter) (l : Str)
-    (hb : ∀ c ∈ l, isOpen c = false ∧ isClose c = false) (hwf : lineWF l = true)
-    (hlen : ∀ k r, specLine l = some (k, r) →
-      (k = ['p'] → f.P.length ≤ r.length) ∧ (k = ['g'] → f.G.length ≤ r.length)) :
-    naiveOK f l = true := by
-  unfold naiveOK
-  rw [parseLine_eq_spec l hwf]
-  cases hs : specLine l with
-  | none => rfl
-  | some kr =>
-    obtain ⟨k, r⟩ := kr
-    have hl := hlen k r hs
-    have hfields : specFields l = k :: r := by
-      unfold specLine at hs
-      split at hs
-      · simp at hs
-      · split at hs
-        · simp at hs
-        · rename_i k' r' heq; simp only [Option.some.injEq, Prod.mk.injEq] at hs; rw [heq, hs.1, hs.2]
-    unfold specFields at hfields
-    rw [splitTop_bracket_free l hb] at hfields
-    simp only [hfields, beq_self_eq_true, Bool.true_and]
-    by_cases hp : k = ['p']
-    · subst hp; simpa using hl.1 rfl
-    · by_cases hg : k = ['g']
-      · subst hg; simpa using hl.2 rfl
-      · simp [hp, hg]
 
 /-! ## loading never drops anything — for every file, every filter, failing loads included -/
 
@@ -624,6 +869,7 @@ theorem loadFilteredFile_ext (text : Str) (f : Filter) (m : Store) : Ext m (load
   split at h
   · simp only [Except.ok.injEq] at h; subst h; exact Ext.refl m
   · split at h
+    · simp at h
     · simp only [Except.ok.injEq] at h; subst h; exact Ext.refl m
     · exact loadPolicyLine_ext _ m m' h
 
@@ -667,14 +913,21 @@ def exStore : Store :=
    { key := ['g'], arity := 2, rules := [] }]
 def exState : EState := { mem := exStore, file := exFile }
 
-/-- the example file is inside the domain of `filtered_exact_partial` for the example filter -/
-example : (textLines true exFile).all (naiveOK exFilter) = true := by decide
+/-- a file with a bracketed comma before the filtered position, a rule shorter than the filter, a leading comma and a
+    raising last line: `filtered_exact` speaks about all of it -/
+def exHardFile : Str := "p, f(a, b), alice\np, alice\n, p, bob, x\ng, alice, admin\np, oops)".toList
+def exHardFilter : Filter := { P := [[], "alice".toList, []], G := [[], "admin".toList] }
+
+example : (loadFilteredFile exHardFile exHardFilter exStore).1.map (·.rules) =
+      [[["f(a, b)".toList, "alice".toList]], [], [["alice".toList, "admin".toList]]] ∧
+    (loadFilteredFile exHardFile exHardFilter exStore).2 = some .indexError ∧
+    (loadFile exHardFile exStore).2 = some .indexError := by decide
 
 /-- … and the filter really selects: alice's `p` rule, the `g` rule and the unfiltered `p2` rule are loaded, bob's is not -/
 example : (loadFilteredFile exFile exFilter exStore).1.map (·.rules.length) = [1, 1, 1] ∧
     (loadFile exFile exStore).1.map (·.rules.length) = [2, 1, 1] := by decide
 
-example : filterLine "p, bob, d2, write".toList exFilter = true ∧ keeps exFilter ['p'] ["bob".toList] = false := by
+example : filtersTo "p, bob, d2, write".toList exFilter true = true ∧ keeps exFilter ['p'] ["bob".toList] = false := by
   decide
 
 /-- a history whose loads succeed, with a refused and an allowed save -/
